@@ -438,6 +438,29 @@ def run_case(M, check, case, tmpdir):
     ti = 0
     for op in case['hist']:
         ctxbase['hist'].append(op)
+        try:
+            _history_op(M, check, p, pat, c, op, texts, ti, rnd, ctxbase, verify)
+        except LIBEXC as e:
+            M.viols.append({'property': 'C11', 'symptom': 'api:%s:crash' % op, 'detail': '%s raised %s on %r' % (op, type(e).__name__, pat),
+                            'method': op, 'ctx': dict(ctxbase, pat=pat)})
+            return True
+        except Exception as e:
+            M.viols.append({'property': 'C11', 'symptom': 'api:%s:crash' % op, 'detail': '%s raised %s: %s on %r' % (op, type(e).__name__, str(e)[:100], pat),
+                            'method': op, 'ctx': dict(ctxbase, pat=pat)})
+            return True
+        if op == 'verify':
+            ti += 1
+        if str(p) != pat:
+            M.viols.append({'property': 'C20', 'symptom': 'mutated-operand', 'detail': 'pattern changed from %r to %r after %s' % (pat, str(p), op),
+                            'method': op, 'ctx': dict(ctxbase)})
+            return True
+    for t in texts[ti:ti + 2] or texts[:1]:
+        verify(t)
+    return True
+
+
+def _history_op(M, check, p, pat, c, op, texts, ti, rnd, ctxbase, verify):
+    if True:
         if op == 'compile':
             p.compile()
         elif op == 'gcp_true':
@@ -472,14 +495,6 @@ def run_case(M, check, case, tmpdir):
             p.has_match(texts[ti % len(texts)])
         elif op == 'verify':
             verify(texts[ti % len(texts)])
-            ti += 1
-        if str(p) != pat:
-            M.viols.append({'property': 'C20', 'symptom': 'mutated-operand', 'detail': 'pattern changed from %r to %r after %s' % (pat, str(p), op),
-                            'method': op, 'ctx': dict(ctxbase)})
-            return True
-    for t in texts[ti:ti + 2] or texts[:1]:
-        verify(t)
-    return True
 
 
 def check_compiled(M, cp, pat, ctxbase, check):
@@ -505,6 +520,10 @@ def gen_case(rnd, check, tier, idx):
             pat = 'a'
     else:
         pat = gen_pattern(rnd, sequential)
+        if rnd.random() < 0.07:
+            # long patterns (beyond any small internal buffer / cache-key length)
+            pat = ''.join(rnd.choice(['ab', '[ab]', 'a?', '\\d', 'x*', '.', 'c', 'b+', ' ']) for _ in range(rnd.choice([30, 45, 70, 130]))) + \
+                rnd.choice(['', '(z)?', '(?P<n1>y)', 'q'])
         if C.parse(pat).error:
             pat = 'a(b)?'
         case['pat'] = pat
